@@ -315,6 +315,85 @@ def run(res, ctx):
             if m_:
                 res.violation("a report contains a memory address", {"program": open(os.path.join(stree, "perm.py")).read(), "excerpt": t_[max(0, m_.start() - 150):m_.end() + 20]})
                 break
+        # ---------------- (3a') display sweep: every call of bandit's own examples, with each positional argument and keyword value in turn replaced by a set / dict
+        #      display — bare, and nested in a list / tuple / dict value — scanned under two hash seeds: messages that quote an argument must quote the same text
+        #      (found on the unchanged tree after 044ca88: B103 still quoted a display NESTED in a list or tuple)
+        import ast as _ast
+        DISPLAYS = ['{"alpha", "beta", "gamma", "delta"}', '[{"alpha", "beta", "gamma"}]', '({"k": "v"},)', '[[{"s1", "s2", "s3", "s4"}]]', '{"k": {"a", "b", "c"}}', '(1, [{"x": {"p", "q", "r"}}])']
+        sweep_dir = os.path.join(scratch.root, "display_sweep"); os.makedirs(sweep_dir)
+        ex_files = sorted(f for f in os.listdir(os.path.join(C.REPO, "examples")) if f.endswith(".py"))
+        n_stmt = 0
+        budget = 20000 if thorough else 2500
+        rng.shuffle(ex_files)
+        for ef in ex_files:
+            try:
+                tree_ = _ast.parse(open(os.path.join(C.REPO, "examples", ef), "rb").read())
+            except Exception:
+                continue
+            imports_ = [_ast.unparse(n) for n in tree_.body if isinstance(n, (_ast.Import, _ast.ImportFrom)) and not (isinstance(n, _ast.ImportFrom) and n.module == "__future__")]
+            stmts_ = []
+            seen_ = set()
+            for n in _ast.walk(tree_):
+                if not isinstance(n, _ast.Call):
+                    continue
+                try:
+                    fsrc = _ast.unparse(n.func)
+                except Exception:
+                    continue
+                if len(fsrc) > 60:
+                    continue
+                args_ = [_ast.unparse(a) for a in n.args if not isinstance(a, _ast.Starred)]
+                kws_ = [(k.arg, _ast.unparse(k.value)) for k in n.keywords if k.arg]
+                sig = (fsrc, len(args_), tuple(k for k, _ in kws_))
+                if sig in seen_:
+                    continue
+                seen_.add(sig)
+                for i in range(len(args_) + len(kws_)):
+                    for dsp in (DISPLAYS if thorough else rng.sample(DISPLAYS, 2)):
+                        a2 = list(args_); k2 = list(kws_)
+                        if i < len(a2):
+                            a2[i] = dsp
+                        else:
+                            k2[i - len(a2)] = (k2[i - len(a2)][0], dsp)
+                        stmts_.append("%s(%s)" % (fsrc, ", ".join(a2 + ["%s=%s" % kv for kv in k2])))
+            if stmts_ and n_stmt < budget:
+                stmts_ = stmts_[:budget - n_stmt]
+                n_stmt += len(stmts_)
+                body_ = "\n".join(imports_) + "\n" + "\n".join(stmts_) + "\n"
+                try:
+                    _ast.parse(body_)
+                except SyntaxError:
+                    continue
+                open(os.path.join(sweep_dir, "sw_" + ef), "w").write(body_)
+        sw = {}
+        for sd in (1, 2):
+            out = os.path.join(scratch.root, f"sweep_{sd}.json")
+            rc, so, se = cli_subprocess(["-r", "display_sweep", "-f", "json", "-o", out, "-q"], scratch.root, sd)
+            res.case(("hashseed-display-sweep", sd), True)
+            if os.path.exists(out):
+                try:
+                    sw[sd] = sorted((os.path.basename(x["filename"]), x["line_number"], x["test_id"], x["issue_text"]) for x in json.loads(open(out, encoding="utf-8").read())["results"])
+                except Exception:
+                    sw[sd] = None
+        res.count("display-sweep-statements", n_stmt)
+        if len(sw) == 2 and sw[1] is not None and sw[2] is not None:
+            res.count("display-sweep-findings", len(sw[1]))
+            diff_ = [(a, b) for a, b in zip(sw[1], sw[2]) if a != b]
+            if diff_ or len(sw[1]) != len(sw[2]):
+                a, b = diff_[0] if diff_ else (sw[1][-1], sw[2][-1])
+                try:
+                    line_ = open(os.path.join(sweep_dir, a[0])).read().split("\n")[a[1] - 1]
+                except Exception:
+                    line_ = None
+                res.violation("two runs over the same inputs differ in a message that quotes an argument (a set / dict display nested in the argument): the text depends on the hash seed "
+                              "or on node addresses", {"statement": line_, "seed_1": list(a), "seed_2": list(b), "differing_findings": len(diff_)})
+            else:
+                for a in sw[1]:
+                    if re.search(r"object at 0x[0-9a-fA-F]+", a[3]):
+                        res.violation("a message contains a memory address", {"finding": list(a)})
+                        break
+        else:
+            res.violation("no report produced for the display sweep", {"have": sorted(sw)})
         # ---------------- (3b) several reports written in ONE process: what an earlier report contained must not show in a later one (seeded change C08-m7 kept SARIF
         #      rule descriptors — whose precision / tags come from the first finding of the rule — in a module-level cache across reports)
         pairs_ = [("cur.execute('SELECT a FROM t WHERE b = %s' % x)\nq = 'DELETE FROM t WHERE c = ' + y\n", "q = 'SELECT a FROM t WHERE b = %s' % x\ncur.execute('UPDATE t SET c = ' + y)\n"),
